@@ -270,6 +270,45 @@ func scCookie(r *Run) {
 			}
 		}
 	}
+	// phase 3: acknowledgements whose cookie the attacker sealed itself under a cookie key anybody can guess
+	// (no hello needed); at any moment of the server's life, also right after start and right after a rotation
+	for i := 0; i < r.Intn("cfg", 6); i++ {
+		if !r.Op("forge") {
+			continue
+		}
+		switch r.Intn("forge", 4) {
+		case 0:
+			time.Sleep(2*time.Minute + time.Duration(r.Intn("forge", 5))*time.Second)
+		case 1:
+			srv.Close()
+			ep.Close()
+			time.Sleep(time.Duration(1+r.Intn("forge", 50)) * time.Millisecond)
+			start()
+		}
+		kp := atkKeys[r.Intn("forge", 3)]
+		from := drawAddr(r, "forge")
+		var ck [16]byte
+		switch r.Intn("forge", 3) {
+		case 1:
+			for j := range ck {
+				ck[j] = 0xff
+			}
+		case 2:
+			ck[15] = 1
+		}
+		k := r.Bytes("forge", 32)
+		cookie, err := transport.VerifAdvForgeCookie(ck, kp, from, k)
+		if err != nil {
+			continue
+		}
+		ca, err := transport.VerifAdvClientAck(kp, k, cookie, certs.DNSName("server.sim"))
+		if err != nil {
+			continue
+		}
+		n.Inject(from, srvAddr, ca, 0, "ack:cookie sealed by the attacker under a guessable key")
+		r.CountFault("clientack/cookie-forged-under-guessable-key", 1)
+		time.Sleep(20 * time.Millisecond)
+	}
 	r.Sample = append(r.Sample, fmt.Sprintf("hellos=%d acks=%d answered=%d", nHello, nAck, len(o.saFor)))
 	srv.Close()
 }
@@ -351,10 +390,15 @@ func scHiddenSilence(r *Run) {
 	}
 	var srvAddr *net.UDPAddr
 	var rightKEM *keys.KEMPublicKey
+	var otherBlockKEM *keys.KEMPublicKey // KEM key of a host block that is not enabled for hidden mode
 	var mkClient func(addr *net.UDPAddr, kemPub *keys.KEMPublicKey, discoverable bool) *transport.Client
 	var closeSrv func()
 	if multi {
-		vs := startVHostServer(r, n, 2, true, false)
+		withCatchAll := r.Intn("cfg", 2) == 0
+		vs := startVHostServer(r, n, 2, true, withCatchAll, false, true)
+		if vs.notHidden != nil {
+			otherBlockKEM = &vs.notHidden.kem.Public
+		}
 		srvAddr = vs.addr
 		rightKEM = &vs.hosts[r.Intn("cfg", 2)].kem.Public
 		closeSrv = func() { vs.srv.Close() }
@@ -465,7 +509,13 @@ func scHiddenSilence(r *Run) {
 			r.CountFault("hidden/discoverable-message", 1)
 		case 2: // request under a wrong KEM key
 			pendingTag[addr.String()] = "wrong KEM key"
-			c := mkClient(addr, &wrongKEM.Public, false)
+			wk := &wrongKEM.Public
+			if otherBlockKEM != nil && r.Intn("act", 2) == 0 {
+				// ... which is the key of one of the server's own host blocks, one that is not hidden-enabled
+				wk = otherBlockKEM
+				pendingTag[addr.String()] = "KEM key of a host block that is not enabled for hidden mode"
+			}
+			c := mkClient(addr, wk, false)
 			clients = append(clients, c)
 			r.Go(func() { c.Handshake() })
 			r.CountFault("hidden/wrong-kem-key", 1)
